@@ -27,6 +27,15 @@ class P:
     """plain instance dictionary; default reduction: copyreg.__newobj__, (P,), state dict or None"""
 
 
+class PA:
+    """plain instance dictionary, but attribute assignment is not a plain store: pickle (and a faithful loader) fill
+    the instance dictionary directly and never come here"""
+
+    def __setattr__(self, name, value):
+        self.__dict__[name] = value
+        self.__dict__['h'] = '__setattr__ ran'
+
+
 class S:
     """__slots__ only: default state is the 2-tuple (None, {slot: value})"""
     __slots__ = tuple(_aname(i) for i in range(8))
@@ -70,6 +79,31 @@ class GV:
 
     def __setstate__(self, state):
         self.v = state
+
+
+class GC:
+    """__getstate__ returning a dict with a list inside, __setstate__ copying what it finds in that list at the moment
+    it is called (so the state has to be complete by then)"""
+
+    def __getstate__(self):
+        return {'items': [getattr(self, _aname(i)) for i in range(len(self.__dict__))]}
+
+    def __setstate__(self, state):
+        for i, x in enumerate(state['items']):
+            setattr(self, _aname(i), x)
+
+
+class GL:
+    """__getstate__ handing out a list that belongs to the graph (shared, not a copy); __setstate__ keeps it and
+    copies what it holds at that moment"""
+
+    def __getstate__(self):
+        return {'items': self.items}
+
+    def __setstate__(self, state):
+        self.items = state['items']
+        for i, x in enumerate(state['items']):
+            setattr(self, 'x%d' % i, x)
 
 
 class NA(tuple):
@@ -185,7 +219,7 @@ def func(x=None):
     return x
 
 
-SHAPES = ['list', 'dict', 'tuple', 'set', 'P', 'S', 'SD', 'GS', 'GT', 'GV', 'NA', 'NT', 'R2', 'R3', 'RL', 'RD', 'CR',
+SHAPES = ['list', 'dict', 'tuple', 'set', 'P', 'PA', 'S', 'SD', 'GS', 'GT', 'GV', 'GC', 'GL', 'NA', 'NT', 'R2', 'R3', 'RL', 'RD', 'CR',
           'ML', 'MD', 'MS', 'OD']
 IMMUTABLE = {'tuple', 'NA', 'NT'}          # built from their positional section at creation time
 # representatives per leaf kind (pairwise different over all kinds, so that a digest names its kind); the harness picks
@@ -197,6 +231,7 @@ LEAVES = {
     'e': [Color.RED, Color.GREEN, Num.ONE],
 }
 SHAPE_OF = {list: 'list', dict: 'dict', tuple: 'tuple', set: 'set', P: 'P', S: 'S', SD: 'SD', GS: 'GS', GT: 'GT', GV: 'GV',
+            GC: 'GC', GL: 'GL', PA: 'PA',
             NA: 'NA', NT: 'NT', R2: 'R2', R3: 'R3', RL: 'RL', RD: 'RD', CR: 'CR', ML: 'ML', MD: 'MD', MS: 'MS',
             collections.OrderedDict: 'OD'}
 
@@ -217,7 +252,7 @@ def build(graph, pick=None):
         reps = LEAVES[v['l']]
         return reps[(pick(v['l'], i, j) if pick else 0) % len(reps)]
 
-    shells = {'list': list, 'dict': dict, 'set': set, 'P': P, 'S': S, 'SD': SD, 'GS': GS, 'GT': GT, 'GV': GV,
+    shells = {'list': list, 'dict': dict, 'set': set, 'P': P, 'S': S, 'SD': SD, 'GS': GS, 'GT': GT, 'GV': GV, 'GC': GC, 'GL': GL, 'PA': PA,
               'R2': R2, 'R3': R3, 'RL': RL, 'RD': RD, 'CR': CR, 'ML': ML, 'MD': MD, 'MS': MS,
               'OD': collections.OrderedDict}
     for i, o in enumerate(graph):
@@ -263,11 +298,19 @@ def build(graph, pick=None):
             x.__setstate__(pv)
         elif s == 'GV':
             x.v = pv[0]
+        elif s == 'GC':
+            x.__setstate__({'items': pv})
         elif s in ('R2', 'R3', 'CR'):
             x.__init__(*pv)
         if s in ('P', 'S', 'SD', 'GS', 'NA', 'R3', 'RL', 'ML', 'MD', 'MS'):
             for j, v in enumerate(av):
                 setattr(x, _aname(j), v)       # SD: 'a' is the slot, b, c... go to the instance dictionary
+        elif s == 'PA':
+            for j, v in enumerate(av):
+                x.__dict__[_aname(j)] = v
+    for i, o in enumerate(graph):              # last: GL copies out of a list that must be complete by now
+        if o['s'] == 'GL':
+            objs[i].__setstate__({'items': val(o['p'][0], i, 0)})
     return objs[0]
 
 
